@@ -98,7 +98,7 @@ fn random(a: &Args) {
         shredh::record::set_no_pool(rng.gen_bool(if degenerate { 0.5 } else { 0.02 }));
         let special = rng.gen_range(0..100);
         let prog = if degenerate {
-            shredh::prog::gen_degenerate(&mut rng)
+            shredh::prog::gen_degenerate(&mut rng, a.flag("innertl"))
         } else if special < 4 {
             shredh::prog::gen_wide_stage(&mut rng)
         } else if special < 8 {
